@@ -287,6 +287,37 @@ func ruleR14_7(c *Check) {
 		for _, t := range ca.Sites(selCall(lov)) {
 			r.DomAll(ca, "registration after both overlap tests", selNode(s), 0, selNode(t), 0)
 		}
+		// … and passed unconditionally: the conditions under which the registration runs entail
+		// (propositionally) that neither level has an overlapping registered range — a test that is
+		// skipped for some picks (no bottom tables, a particular level) leaves those picks unchecked
+		atom := func(e ast.Expr) string {
+			if call, ok := unparen(e).(*ast.CallExpr); ok && w.Callee(call) == types.Object(lov) && len(call.Args) == 1 {
+				switch w.fieldOf(call.Args[0]) {
+				case thisR:
+					return "T"
+				case nextR:
+					return "N"
+				}
+			}
+			return ""
+		}
+		seenT, seenN := false, false
+		gs := w.Guards(ca, s)
+		for _, g := range gs {
+			ast.Inspect(g.Cond, func(n ast.Node) bool {
+				if e, ok := n.(ast.Expr); ok {
+					switch atom(e) {
+					case "T":
+						seenT = true
+					case "N":
+						seenN = true
+					}
+				}
+				return true
+			})
+		}
+		okU := seenT && seenN && w.guardsImply(gs, atom, func(env map[string]bool) bool { return !env["T"] && !env["N"] })
+		r.Check(okU, ca, "registration only when neither level overlaps a running compaction, for every pick", s, "the conditions the registration runs under do not entail !thisLevel.overlapsWith(thisRange) && !nextLevel.overlapsWith(nextRange): some picks are registered without one of the tests")
 	}
 	r.Check(regd[thisR] && regd[nextR], ca, "both ranges are registered", nil, "compareAndAdd does not append thisRange and nextRange to the levels' registered ranges")
 	okTables := false
